@@ -251,6 +251,20 @@ def branches(root):
                 yield {"scrut": c["e"], "arms": [(c["pat"], n["then"]), (WILD, n.get("else") or {"k": "Block", "stmts": []})], "node": n}
 
 
+def exprs_with_closures(facts, node, kind=None, _depth=3):
+    """exprs(node, kind) plus the same inside the bodies of closures written under node (`xs.iter().map(|x| ..)`)."""
+    for n in walk(node):
+        if not isinstance(n, dict) or "k" not in n:
+            continue
+        if kind is None or n["k"] == kind:
+            yield n
+        if n["k"] == "Closure" and _depth > 0:
+            cb = facts.bodies.get(n.get("path"))
+            if cb is not None and "thir" in cb:
+                for x in exprs_with_closures(facts, cb["thir"], kind, _depth - 1):
+                    yield x
+
+
 def exprs_deep(facts, fn, kind=None, depth=2):
     for b in family(facts, fn, depth):
         for n in exprs(b["thir"], kind):
